@@ -249,6 +249,11 @@ func driveMain(fs *flag.FlagSet, args []string) {
 	if len(tot.Samples) > 4 {
 		tot.Samples = tot.Samples[:4]
 	}
+	for k, v := range tot.Stats {
+		if strings.HasPrefix(k, "runs abandoned") && v > 0 {
+			fmt.Fprintf(os.Stderr, "note: %d worker(s) stopped early: %s\n", v, k)
+		}
+	}
 	if coldDone > 0 {
 		tot.Stats["cold-start-runs (one fresh process each)"] = int64(coldDone)
 	}
